@@ -378,7 +378,8 @@ fn fse_coq(cx: &mut Cx, cfg: &FseConfig, data: &[u8], bytes: &[u8], cj: &Value) 
     // op 110: a = table, expect = the 5 fields of every encoding symbol          (init_enc_symbol)
     // op 111: a = par :: block_size :: table, b = raw counts ++ payload, expect = 1 :: compressed bytes
     // op 112: a = table, b = compressed bytes, expect = 1 :: payload             (model decoder on the real stream)
-    if data.len() < 99 || data.len() > 4300 { return; }
+    // (a block container repeats the 256-entry count table in every block: bound the term size, coqc's parser recurses on list literals)
+    if data.len() < 99 || data.len() > 4300 || bytes.len() > 12000 { return; }
     let raw = counts(data);
     let table = match guarded(|| FseTable::new(&raw, cfg)) { Ok(Ok(t)) => t, _ => return };
     let t: Vec<u128> = (0..256).map(|i| table.dec_symbols[i].freq as u128).collect();
@@ -606,10 +607,10 @@ pub fn run_cells(sum: &mut Summary, shards: &mut CoqShards, rng: &mut Rng, args:
     // ---- enumerated small universe: all strings of length <= 3 over {0, 1, 255} x every variant ----
     let letters = [0u8, 1, 255];
     let mut small: Vec<Vec<u8>> = vec![vec![]];
-    for l in 1..=3 { let prev: Vec<Vec<u8>> = small.iter().filter(|s| s.len() == l - 1).cloned().collect(); for p in prev { for &x in &letters { let mut q = p.clone(); q.push(x); small.push(q); } } }
+    for l in 1..=(if th { 5 } else { 3 }) { let prev: Vec<Vec<u8>> = small.iter().filter(|s| s.len() == l - 1).cloned().collect(); for p in prev { for &x in &letters { let mut q = p.clone(); q.push(x); small.push(q); } } }
     for s in &small {
         for &n in &[1u64, 2, 4, 8] {
-            rans_case(&mut cx, n, s, &counts(s), "enum_same", s.len() == 3 && n <= 2);
+            rans_case(&mut cx, n, s, &counts(s), "enum_same", s.len() >= 3 && n <= 2);
             let mut full = [0u32; 256]; for &x in &letters { full[x as usize] = 1; }
             rans_case(&mut cx, n, s, &full, "enum_alphabet", false);
             let mut other = [0u32; 256]; other[1] = 3; other[255] = 1;
@@ -621,16 +622,29 @@ pub fn run_cells(sum: &mut Summary, shards: &mut CoqShards, rng: &mut Rng, args:
         fse_case(&mut cx, "default", 3, s, None, None, "enum", false);
         fse_case(&mut cx, "fast", 1, s, None, None, "enum", false);
         for which in 0..2 {
-            lz_case(&mut cx, which, 3, 258, 32768, s, s, "enum_same", which == 0 && s.len() == 3);
+            lz_case(&mut cx, which, 3, 258, 32768, s, s, "enum_same", which == 0 && s.len() >= 3);
             lz_case(&mut cx, which, 3, 258, 32768, s, &[1, 1, 255, 0, 0, 1], "enum_other", false);
             lz_case(&mut cx, which, 3, 258, 32768, s, &[], "enum_empty_train", false);
+        }
+    }
+    // thorough: random strings of length <= 3 over all 256 byte values x every variant
+    if th {
+        for i in 0..4000 {
+            let l = 1 + (i % 3);
+            let s: Vec<u8> = r.bytes(l);
+            let n = [1u64, 2, 4, 8][i % 4];
+            rans_case(&mut cx, n, &s, &counts(&s), "short256_same", false);
+            let t = r.bytes(3);
+            rans_case(&mut cx, n, &s, &counts(&t), "short256_other", false);
+            fse_case(&mut cx, PRESETS[i % PRESETS.len()], 0, &s, None, None, "short256", false);
+            lz_case(&mut cx, (i % 2) as u64, 3, 258, 32768, &s, &t, "short256", false);
         }
     }
     // ---- rANS: boundary lengths x payload families x training relations ----
     let mut k = 0usize;
     for &n in &[1u64, 2, 4, 8] {
         for len in lens_for(n as usize) {
-            let reps = if len > 5000 { if th { 6 } else { 2 } } else if th { 14 } else { 5 };
+            let reps = if len > 5000 { if th { 12 } else { 2 } } else if th { 60 } else { 5 };
             for _ in 0..reps {
                 k += 1;
                 let kind = k % KINDS;
@@ -649,7 +663,7 @@ pub fn run_cells(sum: &mut Summary, shards: &mut CoqShards, rng: &mut Rng, args:
         adaptive_rans_case(&mut cx, &d, "dominant_plus_all_bytes");
     }
     // arbitrary tables (not counted from data): extreme skews, huge counts, sums around u32::MAX
-    for i in 0..(if th { 400 } else { 80 }) {
+    for i in 0..(if th { 6000 } else { 80 }) {
         let mut f = [0u32; 256];
         let nsym = *r.pick(&[1usize, 2, 3, 16, 255, 256]);
         let mut syms: Vec<u8> = vec![];
@@ -677,7 +691,7 @@ pub fn run_cells(sum: &mut Summary, shards: &mut CoqShards, rng: &mut Rng, args:
         if par && bs <= 4096 { for m in [2usize, 3, 64, 65, 66] { lens.push(bs * m); lens.push(bs * m + 1); if bs * m > 0 { lens.push(bs * m - 1); } } }
         lens.sort(); lens.dedup();
         for len in lens {
-            let reps = if len > 5000 { if th { 5 } else { 2 } } else if th { 12 } else { 4 };
+            let reps = if len > 5000 { if th { 10 } else { 2 } } else if th { 40 } else { 4 };
             for rep in 0..reps {
                 k += 1;
                 let kind = k % KINDS;
@@ -702,7 +716,7 @@ pub fn run_cells(sum: &mut Summary, shards: &mut CoqShards, rng: &mut Rng, args:
         fse_case(&mut cx, "default", 2, &d, None, None, "dominant_plus_all_bytes", false);
     }
     // table reuse: a non-adaptive encoder keeps the table of its first payload (trained on other data)
-    for i in 0..(if th { 300 } else { 60 }) {
+    for i in 0..(if th { 2000 } else { 60 }) {
         let kind = i % KINDS;
         let len = *r.pick(&[100usize, 101, 150, 1000, 4096]);
         let d = payload(r, len, kind);
@@ -712,7 +726,7 @@ pub fn run_cells(sum: &mut Summary, shards: &mut CoqShards, rng: &mut Rng, args:
         for p in ["realtime", "default"] { fse_case(&mut cx, p, 0, &d, Some(&first), None, &format!("reuse_{}", rel_name(rel)), false); }
     }
     // dictionary-seeded encoder
-    for i in 0..(if th { 100 } else { 24 }) {
+    for i in 0..(if th { 600 } else { 24 }) {
         let kind = i % KINDS;
         let len = *r.pick(&[1usize, 99, 100, 101, 1000]);
         let d = payload(r, len, kind);
@@ -729,7 +743,7 @@ pub fn run_cells(sum: &mut Summary, shards: &mut CoqShards, rng: &mut Rng, args:
     let mut k = 0usize;
     for which in 0..2u64 {
         for &len in &[0usize, 1, 2, 9, 10, 11, 19, 20, 21, 99, 100, 101, 255, 256, 257, 258, 259, 260, 516, 517, 1000, 4095, 4096, 4097] {
-            let reps = if len > 3000 { 2 } else if th { 10 } else { 4 };
+            let reps = if len > 3000 { if th { 4 } else { 2 } } else if th { 40 } else { 4 };
             for _ in 0..reps {
                 k += 1;
                 let kind = [11usize, 12, 13, 0, 1, 2, 3, 7, 9, 10, 6][k % 11];
@@ -775,7 +789,7 @@ pub fn run_cells(sum: &mut Summary, shards: &mut CoqShards, rng: &mut Rng, args:
         lz_case(&mut cx, 1, 3, 258, 32768, &d, &half, &format!("window_{}_train_prefix", dist), false);
     }
     // optimized coder: small windows, and long inputs
-    for i in 0..(if th { 200 } else { 40 }) {
+    for i in 0..(if th { 1200 } else { 40 }) {
         let kind = [11usize, 12, 13, 3, 7][i % 5];
         let len = *r.pick(&[50usize, 300, 2000, 65535, 65536, 65537]);
         let len = if len > 60000 && i % 4 != 0 { 3000 } else { len };
